@@ -354,6 +354,8 @@ def run_range(exe, margs, lo, hi, env, res, lock, timeout, label, prefix=(), req
                 if len(parts) > 1 and parts[1] != "done":
                     with lock:
                         res.notes.append(parts[1])
+                        if parts[1].startswith("HARNESS-RACE"):
+                            res.harness_failures.append("%s: %s" % (label, parts[1]))
             elif t == "I":
                 with lock:
                     res.info = parts[1] if len(parts) > 1 else ""
